@@ -378,7 +378,10 @@ func c17ProbesExt(ctx *vkit.Ctx) {
 							panic(x)
 						}
 					}()
-					g.judge(q)
+					if w, _ := g.judge(q); w.Outcome == "ann_miss" {
+						// also the engine's beam-64 search misses this stored prompt: recall is C07's business, skipped
+						ctx.Count("probe.D-C17-10.skipped_ann_miss", 1)
+					}
 				}()
 			}
 			if len(missed) > 0 {
